@@ -706,7 +706,11 @@ func (g *Gen) cancel() Op {
 	if g.r.P(25) {
 		u = g.r.N(NUsers)
 	}
-	return NewOp("CAN", "who", g.who(u), "a", g.auctionId(a))
+	who := g.who(u)
+	if g.r.P(8) {
+		who = "gov" // the module authority is not the auctioneer either
+	}
+	return NewOp("CAN", "who", who, "a", g.auctionId(a))
 }
 
 func (g *Gen) blockTime() int64 {
